@@ -9,7 +9,7 @@ from .. import report as R
 from ..report import RuleSpec
 from .. import codec as C
 from .. import cmp as P
-from .common import CTL, fn_loc, short, unparse, concrete_classes, returns_of
+from .common import call_name, CTL, fn_loc, short, unparse, concrete_classes, returns_of
 from . import c08
 
 TL = TIMEDLIST
@@ -773,6 +773,71 @@ def rule_r11(ctx) -> List[R.Inst]:
     return insts
 
 
+def rule_r13(ctx) -> List[R.Inst]:
+    """a declared default that is a mutable object (Quaver `keysounds = ["object", []]`) must be copied for every cell it fills:
+    `_default()` (one row), `empty(n)` (the row repeated) and the `from_dict` fill otherwise place ONE Python object — the
+    class-level default itself — into every row of every list"""
+    M = ctx.M
+    rid = "C16.R13"
+    mutable = []
+    for ic in sorted(c for c in M.classes if CTL not in c and M.class_kind(c) == "item"):
+        for f, (dt, dflt) in M.item_fields(ic).items():
+            if isinstance(dflt, (list, dict, set)):
+                mutable.append(f"{ic.split('.')[-1]}.{f}")
+    insts = []
+    if not mutable:
+        return [R.ok(rid, "no-mutable-default", "", 0, idiom="no declared default is a mutable object")]
+    what = f"declared mutable defaults: {sorted(set(mutable))[:4]}"
+
+    def copies_per_element(e) -> bool:
+        """[copy(x) for ...] / [deepcopy(d) for _ in range(n)] / a call of copy/deepcopy/list/dict on the element"""
+        for n in ast.walk(e):
+            if isinstance(n, (ast.ListComp, ast.GeneratorExp)) and any(
+                    isinstance(x, ast.Call) and call_name(x) in ("deepcopy", "copy", "list", "dict") for x in ast.walk(n.elt)):
+                return True
+        return False
+    # (a) list_props._default: Series([<default>], dtype=...)
+    mod = M.mods["reamber.base.Property"]
+    file = mod.rel
+    dfn = [n for n in ast.walk(mod.tree) if isinstance(n, ast.FunctionDef) and n.name == "_default"]
+    ok_a = False
+    node_a = dfn[0] if dfn else None
+    for d_ in dfn:
+        for n in ast.walk(d_):
+            if isinstance(n, ast.Call) and call_name(n) == "Series" and n.args and isinstance(n.args[0], ast.List) and n.args[0].elts:
+                node_a = n
+                el = n.args[0].elts[0]
+                ok_a = isinstance(el, ast.Call) and call_name(el) in ("deepcopy", "copy", "list", "dict")
+    insts.append(R.ok(rid, "_default", file, getattr(node_a, "lineno", 0), idiom="the default is copied into the one-row frame") if ok_a else
+                 R.viol(rid, "_default", file, getattr(node_a, "lineno", 0),
+                        f"list_props._default puts the declared default object itself into the frame ({what}): every list built from "
+                        f"_default() — empty lists, converter buffers — holds the class-level default, so editing one cell edits the default "
+                        f"of every later list", construct="_default: Series([default]) without a copy"))
+    # (b) TimedList.empty: rows repeated -> object columns rebuilt with per-row copies
+    fn = M.fn(TL + ".empty")
+    file, line = fn_loc(M, TL + ".empty")
+    rep = any(isinstance(n, ast.Call) and call_name(n) == "repeat" for n in ast.walk(fn.node))
+    ok_b = any(isinstance(n, ast.Assign) and isinstance(n.targets[0], ast.Subscript) and copies_per_element(n.value) for n in ast.walk(fn.node))
+    insts.append(R.ok(rid, "empty", file, line, idiom="object cells are copied per row after the repeat") if (ok_b or not rep) else
+                 R.viol(rid, "empty", file, line,
+                        f"empty(n) repeats the single default row: all n cells of an object column are the same Python object ({what}); "
+                        f"giving one note a key sound gives it to all of them", construct="empty: index.repeat(rows) without per-row copies"))
+    # (c) from_dict fill
+    fn = M.fn(TL + ".from_dict")
+    file, line = fn_loc(M, TL + ".from_dict")
+    fills = [n for n in ast.walk(fn.node) if isinstance(n, ast.Assign) and isinstance(n.targets[0], ast.Subscript) and
+             any(isinstance(x, ast.Name) and x.id == "default" for x in ast.walk(n.value))]
+    if not fills:
+        insts.append(R.undec(rid, "from_dict", file, line, "default fill not found"))
+    else:
+        ok_c = all(copies_per_element(f.value) for f in fills)
+        insts.append(R.ok(rid, "from_dict", file, fills[0].lineno, idiom="one copy of the default per filled row") if ok_c else
+                     R.viol(rid, "from_dict", file, fills[0].lineno,
+                            f"from_dict fills a missing field with '{unparse(fills[0].value)[:60]}': the same object in every row ({what})",
+                            construct=f"from_dict: {unparse(fills[0].value)[:80]}"))
+    return insts
+
+
 def rule_r12(ctx) -> List[R.Inst]:
     """re-definitions below the classes the list rules decide (sa/props/overrides.py): the `df` field is a plain field on
     every list class, and a method of a reamber.base list class re-defined in a subclass either forwards to it or is itself
@@ -793,6 +858,7 @@ SPECS = [
     RuleSpec("C16.R9", rule_r9, 2, "M0", "row -> item filter keeps exactly the declared fields"),
     RuleSpec("C16.R10", rule_r10, 3, "A7", "hold ends: head_offset = offset, tail_offset = offset + length"),
     RuleSpec("C16.R12", rule_r12, 9, "M0", "list operations re-defined in subclasses forward to the decided definition; `df` is a plain field"),
+    RuleSpec("C16.R13", rule_r13, 3, "A3", "a mutable declared default is copied for every cell it fills (_default, empty, from_dict)"),
     RuleSpec("C16.R11", rule_r11, 12, "M0", "Property.py generators: each accessor reads/writes its own key (bound per iteration) of the right store"),
 ]
 
